@@ -262,7 +262,7 @@ func c14serial(rep *vh.Report, seed uint64, idx int) {
 		return
 	}
 	r := vh.Sub(seed, fmt.Sprintf("c14-serial-%d", idx))
-	sf := &serialFake{errOpen: errors.New("serial open failed")}
+	sf := &serialFake{errOpen: errors.New("serial open failed"), asPort: idx%2 == 1}
 	var opensMu sync.Mutex
 	var openTimes []time.Time
 	injected := map[int]error{}
